@@ -394,8 +394,15 @@ func cutPoints(total int, seed int64, max int) []int {
 		return []int{0}
 	}
 	set := map[int]bool{1: true, total - 1: true, total / 2: true}
+	// evenly spaced cuts make sure every entry-sized stretch of the in-flight bytes is hit (a store
+	// that commits in two transactions shows its window this way), random ones vary the rest
+	for k := 1; k < 8; k++ {
+		if c := total * k / 8; c > 0 && c < total {
+			set[c] = true
+		}
+	}
 	r := simkit.NewRng(uint64(seed), "cuts")
-	for len(set) < max && len(set) < total-1 {
+	for len(set) < max+8 && len(set) < total-1 {
 		set[1+r.Intn(total-1)] = true
 	}
 	var out []int
@@ -690,6 +697,7 @@ func (crashHarness) Exec(p *simkit.Program) *simkit.Result {
 	os.MkdirAll(w.base, 0o755)
 	defer os.RemoveAll(w.base)
 	w.live = w.newDir("live")
+	os.MkdirAll(w.live, 0o755) // the data directory exists before the node opens its store
 	d, err := Open(w.live)
 	if err != nil {
 		res.HarnessErr = err.Error()
